@@ -71,9 +71,8 @@ def dep_cone(vfile):
             src = open(os.path.join(COQ, f)).read()
         except OSError:
             continue
-        for m in re.finditer(r"From BBS Require (?:Import|Export) ([^.]*(?:\.[A-Za-z0-9_]+)*[^.]*)\.\s", src + " "):
-            pass
-        for m in re.finditer(r"From\s+BBS\s+Require\s+(?:Import|Export)?\s*((?:[A-Za-z0-9_.]+\s*)+)\.", src):
+        # a Require sentence ends at the first '.' that is followed by white space
+        for m in re.finditer(r"From\s+BBS\s+Require\s+(?:Import\s+|Export\s+)?(.*?)\.(?=\s|$)", strip_comments(src), re.S):
             for mod in m.group(1).split():
                 todo.append(mod.replace(".", "/") + ".v")
     return sorted(seen)
